@@ -170,7 +170,7 @@ theorem c03_unmatchable_isolated (resp custom resp' custom' : List Tp) (p : Stri
   apply List.Perm.filter
   refine (c03_exact resp custom ev).trans (((configuredAt_perm hrm ev).trans ?_).trans (c03_exact resp' custom' ev).symm)
   unfold configuredAt selTp
-  simp [List.filter_cons, matches_nosource]
+  simp [matches_nosource]
 
 /-! ### streams and threads -/
 
